@@ -32,7 +32,12 @@ RULE = (
     "individuals (+0-2 known but not requested) with xi within +-2 (extreme +-5) of the prior mean, tau within 3 std, sources "
     "in [-3,3] x 1-8 ages each (near tau, far up to 1e4, exactly tau, integer-valued; sorted/reversed/shuffled; repeats) x "
     "age container x request form x to_dataframe. All numbers are float32-representable. Non-trivial = >=2 requested individuals, "
-    "some individual with unsorted ages containing a repeat, sources present; distinct by case hash."
+    "some individual with unsorted ages containing a repeat, sources present; distinct by case hash. "
+    "Parameter updates (both engines): ONE model object receives 1-3 further parameter sets of the same kind/dimension/sources, each "
+    "applied either by load_parameters on the same object or by assigning a drawn non-empty subset of {log_g_mean, log_v0_mean, g_mean, "
+    "deltas_mean, betas_mean} through model.state with auto-fork off followed by put_population_latent_variables(PRIOR_MODE); the same "
+    "dict request and the same MultiIndex request are judged against the closed form of the CURRENT parameters before the first and "
+    "after every update (non-trivial there = the rule above and a trajectory parameter actually changed)."
 )
 ASSUMPTIONS = [
     "Reference = float64 evaluation of the documented formulas: rt = exp(xi)(t - tau); logistic/joint longitudinal part "
@@ -55,6 +60,9 @@ ASSUMPTIONS = [
     "vs features, see repro_joint_dataframe; the joint kind is not in the property's statement). A scalar age with "
     "to_dataframe=True (TypeError from pandas.Index before the repair, see repro_scalar_age_dataframe) is searched since "
     "the repair; EXCLUDE_SCALAR_AGE_DF=True would remove it again.",
+    "In-place parameter updates use the two paths leaspy uses itself: StatefulModel.load_parameters ('Instantiate or update') and "
+    "assignment of ModelParameter nodes on model.state under auto_fork(None) + put_population_latent_variables(PRIOR_MODE) "
+    "(StatefulModel.initialize / load_parameters body; the MCMC-SAEM maximisation step also assigns parameters on model.state in place).",
     "Ages are >= 0; identifiers are strings (IndividualParameters refuses anything else).",
 ]
 REQUIRED_CLASSES = {
@@ -66,6 +74,7 @@ REQUIRED_CLASSES = {
     "ages:unsorted": 0.2, "ages:repeat": 0.1, "ages:single": 0.05, "ages:far": 0.05,
     "mi:repeated-pair": 0.02, "sources": 0.3, "no-sources": 0.1, "ip:extra-individuals": 0.1,
     "unshifted-at-tau": 0.5,
+    "updates:load": 0.03, "updates:state": 0.03, "updates:trajectory-parameters-changed": 0.05, "updates:nontrivial": 0.01,
 }
 
 EPS32 = float(np.finfo(np.float32).eps)
@@ -259,12 +268,14 @@ def _cmp(est, ref, tol):
     return None
 
 
-def judge(col: Collector, case, *, allow_excluded=False, sub="estimate", model_cache=None):
+def judge(col: Collector, case, *, allow_excluded=False, sub="estimate", model_cache=None, model=None, fail_input=None):
     """Run every predicate of the property on one case; failures are recorded on `col`. Returns class labels."""
     import pandas as pd
     import torch
 
     kind, dim, sd = case["kind"], case["dim"], case["sd"]
+    rec = case if fail_input is None else fail_input  # what a failure records (replayable input)
+    tsub, rsub = ("trajectory", "reference-time") if sub in ("estimate", "grid", "known") else (sub + ":trajectory", sub + ":reference-time")
     feats = list(case["features"])
     inds = case["inds"]
     tdf = case["to_dataframe"]
@@ -283,7 +294,8 @@ def judge(col: Collector, case, *, allow_excluded=False, sub="estimate", model_c
     # ---- objects under test
     try:
         mkey = jhash([kind, feats, sd, case["noise"], case["params"]])
-        model = model_cache.get(mkey) if model_cache is not None else None
+        if model is None and model_cache is not None:
+            model = model_cache.get(mkey)
         if model is None:
             model = build_model(case)
             if model_cache is not None:
@@ -293,10 +305,10 @@ def judge(col: Collector, case, *, allow_excluded=False, sub="estimate", model_c
         if sd > 0:
             A = model.state["mixing_matrix"].detach().to(torch.float64).numpy().copy()
             if A.shape != (sd, dim):
-                col.fail(sub, "mixing-matrix-shape", case, observed=A.shape, expected=(sd, dim))
+                col.fail(sub, "mixing-matrix-shape", rec, observed=A.shape, expected=(sd, dim))
                 return classes
     except Exception as e:
-        col.fail(sub, "unexpected-exception:build:" + exc_bucket(e), case, observed=repr(e), expected="model with hand-made parameters is usable")
+        col.fail(sub, "unexpected-exception:build:" + exc_bucket(e), rec, observed=repr(e), expected="model with hand-made parameters is usable")
         return classes
 
     # ---- reference
@@ -329,10 +341,10 @@ def judge(col: Collector, case, *, allow_excluded=False, sub="estimate", model_c
     try:
         out = model.estimate(req, ip, to_dataframe=tdf)
     except Exception as e:
-        col.fail(sub, "unexpected-exception:estimate:" + exc_bucket(e), case, observed=repr(e), expected="estimates for the requested ages")
+        col.fail(sub, "unexpected-exception:estimate:" + exc_bucket(e), rec, observed=repr(e), expected="estimates for the requested ages")
         out = None
     if out is not None:
-        _judge_layout(col, case, sub, out, expect_df, ix, pairs, refs, tols, feats, n_cols, dim)
+        _judge_layout(col, case, rec, sub, out, expect_df, ix, pairs, refs, tols, feats, n_cols, dim)
 
     # ---- (2) compute_individual_trajectory per individual (+ range, monotonicity)
     for i, p in enumerate(inds):
@@ -340,23 +352,23 @@ def judge(col: Collector, case, *, allow_excluded=False, sub="estimate", model_c
         try:
             tr = model.compute_individual_trajectory(make_container(p["ages"], cont), ip_dict(p, case["ip_form"], sd))
         except Exception as e:
-            col.fail("trajectory", "unexpected-exception:trajectory:" + exc_bucket(e), case, observed=repr(e), expected="a trajectory")
+            col.fail(tsub, "unexpected-exception:trajectory:" + exc_bucket(e), rec, observed=repr(e), expected="a trajectory")
             continue
         n = len(p["ages"])
         if not isinstance(tr, torch.Tensor) or tuple(tr.shape) != (1, n, n_cols):
-            col.fail("trajectory", "trajectory-shape", case, observed=getattr(tr, "shape", type(tr)), expected=(1, n, n_cols))
+            col.fail(tsub, "trajectory-shape", rec, observed=getattr(tr, "shape", type(tr)), expected=(1, n, n_cols))
             continue
         est = tr[0, :, :dim].detach().to(torch.float64).numpy()
         msg = _cmp(est, refs[i], tols[i])
         if msg:
-            col.fail("trajectory", f"closed-form:{kind}", case, observed=f"individual {p['id']!r}: {msg}", expected="documented closed form")
+            col.fail(tsub, f"closed-form:{kind}", rec, observed=f"individual {p['id']!r}: {msg}", expected="documented closed form")
         if kind in LOGISTIC_KINDS:
             if not ((est >= 0.0) & (est <= 1.0)).all():
-                col.fail("trajectory", f"range:{kind}", case, observed=f"min {est.min()!r} max {est.max()!r}", expected="values in [0, 1]")
+                col.fail(tsub, f"range:{kind}", rec, observed=f"min {est.min()!r} max {est.max()!r}", expected="values in [0, 1]")
             order = np.argsort(np.asarray(p["ages"], dtype=np.float64), kind="stable")
             srt = est[order]
             if n > 1 and not (np.diff(srt, axis=0) >= -MONO_SLACK).all():
-                col.fail("trajectory", f"monotone:{kind}", case, observed=f"ages {sorted(p['ages'])}: {srt.tolist()}", expected="non-decreasing in age")
+                col.fail(tsub, f"monotone:{kind}", rec, observed=f"ages {sorted(p['ages'])}: {srt.tolist()}", expected="non-decreasing in age")
 
     # ---- (3) unshifted individual at its reference time
     want = ref_value_at_reference_time(kind, case["params"])
@@ -367,9 +379,9 @@ def judge(col: Collector, case, *, allow_excluded=False, sub="estimate", model_c
             tr = model.compute_individual_trajectory([p["tau"]], d0)
             got = tr[0, 0, :dim].detach().to(torch.float64).numpy()
             if not (np.abs(got - want) <= ATOL + RTOL * np.abs(want)).all():
-                col.fail("reference-time", f"value-at-tau:{kind}", case, observed=got.tolist(), expected=want.tolist())
+                col.fail(rsub, f"value-at-tau:{kind}", rec, observed=got.tolist(), expected=want.tolist())
         except Exception as e:
-            col.fail("reference-time", "unexpected-exception:trajectory:" + exc_bucket(e), case, observed=repr(e), expected="1/(1+g)")
+            col.fail(rsub, "unexpected-exception:trajectory:" + exc_bucket(e), rec, observed=repr(e), expected="1/(1+g)")
         classes.append("unshifted-at-tau")
 
     # ---- classes on ages
@@ -391,31 +403,31 @@ def judge(col: Collector, case, *, allow_excluded=False, sub="estimate", model_c
     return classes
 
 
-def _judge_layout(col, case, sub, out, expect_df, ix, pairs, refs, tols, feats, n_cols, dim):
+def _judge_layout(col, case, rec, sub, out, expect_df, ix, pairs, refs, tols, feats, n_cols, dim):
     import pandas as pd
 
     inds = case["inds"]
     kind = case["kind"]
     if expect_df:
         if not isinstance(out, pd.DataFrame):
-            col.fail(sub, "layout:not-a-dataframe", case, observed=type(out).__name__, expected="DataFrame")
+            col.fail(sub, "layout:not-a-dataframe", rec, observed=type(out).__name__, expected="DataFrame")
             return
         exp_keys = [(inds[i]["id"], inds[i]["ages"][j]) for i, j in pairs]
         if len(out) != len(exp_keys):
-            col.fail(sub, "layout:row-count", case, observed=f"{len(out)} rows: {list(out.index)[:12]}", expected=f"{len(exp_keys)} rows: {exp_keys[:12]}")
+            col.fail(sub, "layout:row-count", rec, observed=f"{len(out)} rows: {list(out.index)[:12]}", expected=f"{len(exp_keys)} rows: {exp_keys[:12]}")
             return
         if list(out.index.names) != ["ID", "TIME"]:
-            col.fail(sub, "layout:index-names", case, observed=list(out.index.names), expected=["ID", "TIME"])
+            col.fail(sub, "layout:index-names", rec, observed=list(out.index.names), expected=["ID", "TIME"])
             return
         got_keys = [tuple(k) for k in out.index]
         if any(len(k) != 2 or k[0] != e[0] or not (k[1] == e[1]) for k, e in zip(got_keys, exp_keys)):
-            col.fail(sub, "layout:index-order", case, observed=got_keys[:12], expected=exp_keys[:12])
+            col.fail(sub, "layout:index-order", rec, observed=got_keys[:12], expected=exp_keys[:12])
             return
         if ix is not None and not out.index.equals(ix):
-            col.fail(sub, "layout:index-differs-from-input", case, observed=list(out.index)[:12], expected=list(ix)[:12])
+            col.fail(sub, "layout:index-differs-from-input", rec, observed=list(out.index)[:12], expected=list(ix)[:12])
             return
         if list(out.columns) != feats:
-            col.fail(sub, "layout:columns", case, observed=list(out.columns), expected=feats)
+            col.fail(sub, "layout:columns", rec, observed=list(out.columns), expected=feats)
             return
         vals = out.to_numpy(dtype=np.float64)
         ref = np.stack([refs[i][j] for i, j in pairs])
@@ -423,16 +435,16 @@ def _judge_layout(col, case, sub, out, expect_df, ix, pairs, refs, tols, feats, 
         msg = _cmp(vals, ref, tol)
         if msg:
             i, j = pairs[int(msg.split()[1])] if msg.startswith("row") else (0, 0)
-            col.fail(sub, f"closed-form:{kind}", case, observed=f"(ID, TIME) = ({inds[i]['id']!r}, {inds[i]['ages'][j]}): {msg}",
+            col.fail(sub, f"closed-form:{kind}", rec, observed=f"(ID, TIME) = ({inds[i]['id']!r}, {inds[i]['ages'][j]}): {msg}",
                      expected="row k holds the documented closed form at the k-th requested (ID, TIME)")
         return
     # dict layout
     if not isinstance(out, dict):
-        col.fail(sub, "layout:not-a-dict", case, observed=type(out).__name__, expected="dict")
+        col.fail(sub, "layout:not-a-dict", rec, observed=type(out).__name__, expected="dict")
         return
     want_ids = [p["id"] for p in inds]
     if sorted(out.keys()) != sorted(want_ids) or len(out) != len(want_ids):
-        col.fail(sub, "layout:ids", case, observed=list(out.keys()), expected=want_ids)
+        col.fail(sub, "layout:ids", rec, observed=list(out.keys()), expected=want_ids)
         return
     for i, p in enumerate(inds):
         arr = out[p["id"]]
@@ -441,11 +453,11 @@ def _judge_layout(col, case, sub, out, expect_df, ix, pairs, refs, tols, feats, 
         else:  # rows of this individual in order of appearance in the index
             js = [j for ii, j in pairs if ii == i]
         if not isinstance(arr, np.ndarray) or arr.shape != (len(js), n_cols):
-            col.fail(sub, "layout:array-shape", case, observed=getattr(arr, "shape", type(arr).__name__), expected=(len(js), n_cols))
+            col.fail(sub, "layout:array-shape", rec, observed=getattr(arr, "shape", type(arr).__name__), expected=(len(js), n_cols))
             return
         msg = _cmp(arr[:, :dim], refs[i][js], tols[i][js])
         if msg:
-            col.fail(sub, f"closed-form:{kind}", case, observed=f"individual {p['id']!r} ages {[p['ages'][j] for j in js]}: {msg}",
+            col.fail(sub, f"closed-form:{kind}", rec, observed=f"individual {p['id']!r} ages {[p['ages'][j] for j in js]}: {msg}",
                      expected="row j holds the documented closed form at the j-th requested age")
             return
 
@@ -596,10 +608,13 @@ def case_strategy(draw, kinds=("logistic", "linear", "shared_speed_logistic", "j
     return case
 
 
-def shard_sampled(seed: int, n_examples: int, kinds, shard: int = 0):
+def shard_sampled(seed: int, n_examples: int, kinds, shard: int = 0, n_updates: int = 0):
     env.import_leaspy()
     col = Collector(PROP, f"H-{'+'.join(k[:3] for k in kinds)}-{shard}")
     drive(col, case_strategy(tuple(kinds)), body, n_examples=n_examples, seed=shard_seed(seed, shard), sub_check="estimate")
+    if n_updates:
+        drive(col, update_case_strategy(tuple(kinds)), body_updates, n_examples=n_updates, seed=shard_seed(seed, shard, 1), sub_check="updates",
+              known_buckets={f["bucket"] for f in col.failures})
     return col
 
 
@@ -614,8 +629,8 @@ GRID_SETTINGS = {
 }
 
 
-def grid_params(kind, dim, sd):
-    v = lambda k, n, lo, hi: [r32(lo + (hi - lo) * ((7 * i + 3 * k) % 11) / 10.0) for i in range(n)]
+def grid_params(kind, dim, sd, shift=0):
+    v = lambda k, n, lo, hi: [r32(lo + (hi - lo) * ((7 * i + 3 * k + shift) % 11) / 10.0) for i in range(n)]
     p = dict(tau_mean=[r32(68.5)], tau_std=[r32(7.25)], xi_std=[r32(0.5)])
     p["noise_std"] = [r32(0.1)] * (1 if (kind == "joint" and (dim == 1 or sd == 0)) else dim)
     if kind in ("logistic", "joint"):
@@ -706,6 +721,9 @@ def shard_grid(kind: str, shard: int = 0):
         col.case(classes=classes + ["engine:grid"] + (["nontrivial"] if nt else []), nontrivial=jhash(case) if nt else None, sample=None)
         n += 1
     col.extra[f"grid_cases_{kind}"] = n
+    for case in grid_update_cases(kind):
+        classes = judge_updates(col, case, sub="grid-updates")
+        col.case(classes=classes + ["engine:grid"], nontrivial=jhash(case), sample=None)
     if kind == "logistic":
         repros = [("joint-dataframe", repro_joint_dataframe)]
         if EXCLUDE_SCALAR_AGE_DF:  # otherwise the class is part of the grid and judged there
@@ -716,6 +734,135 @@ def shard_grid(kind: str, shard: int = 0):
             col.notes.append(f"reproducer {name}: " + (fails[0]["bucket"] if fails else "no longer reproduces"))
     return col
 
+
+
+# ------------------------------------------------------------------------------------------------
+# parameter updates on ONE model object: estimates must follow the CURRENT parameters
+# ------------------------------------------------------------------------------------------------
+TRAJECTORY_KEYS = ("log_g_mean", "log_v0_mean", "g_mean", "deltas_mean", "betas_mean")
+
+
+def apply_update(model, upd):
+    """Change the parameters of an already usable model in place, the two ways leaspy itself does it:
+    'load'  -> model.load_parameters(full parameter set) (StatefulModel.load_parameters: "Instantiate or update");
+    'state' -> assign model parameters through model.state with auto-fork off, then reset the population latent variables to
+               their prior mode (what StatefulModel.initialize and load_parameters do internally)."""
+    import torch
+
+    from leaspy.variables.specs import LatentVariableInitType
+
+    if upd["how"] == "load":
+        model.load_parameters(dict(upd["params"]))
+        return
+    st_ = model.state
+    with st_.auto_fork(None):
+        for k, v in upd["params"].items():
+            st_[k] = torch.tensor(v, dtype=torch.float32).view(st_.dag[k].shape)
+        st_.put_population_latent_variables(LatentVariableInitType.PRIOR_MODE)
+
+
+def _variants(case):
+    """The two requests (dict layout, MultiIndex layout) repeated after every update."""
+    d = dict(case, request="dict", to_dataframe=case["tdf_dict"], inds=[dict(p, container=p["container_dict"]) for p in case["inds"]])
+    m = dict(case, request="multiindex", to_dataframe=case["tdf_mi"], inds=[dict(p, container="index") for p in case["inds"]])
+    return d, m
+
+
+def judge_updates(col: Collector, case, *, sub="updates", allow_excluded=False):
+    """case = a single-step case + tdf_dict/tdf_mi/container_dict/mi_* fields + updates=[{how, params}, ...].
+    The same two requests are judged against the closed form of the current parameters before the first and after every update."""
+    classes = set()
+    current = dict(case["params"])
+    try:
+        model = build_model(case)
+    except Exception as e:
+        col.fail(sub, "unexpected-exception:build:" + exc_bucket(e), case, observed=repr(e), expected="model with hand-made parameters is usable")
+        return ["updates:case"]
+    steps = 0
+    for k in range(len(case["updates"]) + 1):
+        if k > 0:
+            upd = case["updates"][k - 1]
+            try:
+                apply_update(model, upd)
+            except Exception as e:
+                col.fail(sub, f"unexpected-exception:update-{upd['how']}:" + exc_bucket(e), dict(case, failed_at_step=k), observed=repr(e),
+                         expected="parameters of an existing model can be updated")
+                break
+            current = dict(current, **upd["params"])
+            classes.add("updates:" + upd["how"])
+            if any(current[q] != case["params"][q] for q in TRAJECTORY_KEYS if q in current):
+                classes.add("updates:trajectory-parameters-changed")
+        n_before = col.n_failures()
+        for v in _variants(dict(case, params=current)):
+            cl = judge(col, v, sub=sub, model=model, fail_input=dict(case, failed_at_step=k), allow_excluded=allow_excluded)
+            classes.update(c for c in cl if c.startswith(("kind:", "sources", "no-sources", "request:", "mi:repeated-pair")))
+            steps += 1
+        if col.n_failures() > n_before:
+            break  # later steps would repeat the same root cause
+    col.extra["update_estimates_judged"] = col.extra.get("update_estimates_judged", 0) + steps
+    classes.add("updates:case")
+    classes.add(f"updates:n-updates-{len(case['updates'])}")
+    return sorted(classes)
+
+
+def body_updates(col: Collector, case):
+    for name in case.get("excluded", []):
+        col.exclude(name)
+    classes = judge_updates(col, case)
+    nt = is_nontrivial(case) and "updates:trajectory-parameters-changed" in classes
+    col.case(classes=classes + (["updates:nontrivial"] if nt else []), nontrivial=jhash(case) if nt else None,
+             sample=dict(kind=case["kind"], dim=case["dim"], sd=case["sd"], updates=[dict(how=u["how"], keys=sorted(u["params"])) for u in case["updates"]],
+                         n_individuals=len(case["inds"])))
+
+
+@st.composite
+def update_case_strategy(draw, kinds=("logistic", "linear", "shared_speed_logistic", "joint")):
+    case = draw(case_strategy(kinds))
+    kind, dim, sd = case["kind"], case["dim"], case["sd"]
+    for p in case["inds"]:
+        c = p["container"]
+        if c == "index":
+            c = draw(st.sampled_from(["list", "tuple", "ndarray64"]))
+        p["container_dict"] = c
+    has_scalar = any(p["container_dict"] in SCALAR_CONTAINERS for p in case["inds"])
+    if kind == "joint":
+        case["tdf_dict"], case["tdf_mi"] = draw(st.sampled_from([None, False])), False
+    else:
+        case["tdf_dict"] = draw(st.sampled_from([None, False] if (has_scalar and EXCLUDE_SCALAR_AGE_DF) else [None, True, False]))
+        case["tdf_mi"] = draw(st.sampled_from([None, True, False]))
+    if "mi_order" not in case:
+        total = sum(len(p["ages"]) for p in case["inds"])
+        case["mi_order"] = list(draw(st.permutations(list(range(total)))))
+        case["mi_build"] = draw(st.sampled_from(["tuples", "arrays", "frame"]))
+        case["mi_int_time"] = False
+    updates = []
+    for _ in range(draw(st.integers(1, 3))):
+        new = _params(draw, kind, dim, sd, case["noise"])
+        how = draw(st.sampled_from(["load", "state"]))
+        if how == "state":
+            keys = [q for q in TRAJECTORY_KEYS if q in new]
+            chosen = [q for q in keys if draw(st.booleans())] or [keys[draw(st.integers(0, len(keys) - 1))]]
+            new = {q: new[q] for q in chosen}
+        updates.append(dict(how=how, params=new))
+    case["updates"] = updates
+    return case
+
+
+def grid_update_cases(kind):
+    for dim, sd in GRID_SETTINGS[kind]:
+        base = next(c for c in grid_cases(kind) if c["dim"] == dim and c["sd"] == sd and c["request"] == "multiindex"
+                    and c["mi_order"] != sorted(c["mi_order"]) and not c["mi_int_time"])
+        for hows in (("load",), ("state",), ("load", "state", "load"), ("state", "load", "state")):
+            case = dict(base, tdf_dict=None, tdf_mi=False if kind == "joint" else None,
+                        inds=[dict(p, container_dict="list") for p in base["inds"]])
+            ups = []
+            for n, how in enumerate(hows):
+                new = grid_params(kind, dim, sd, shift=2 * n + 1)
+                if how == "state":
+                    new = {q: new[q] for q in TRAJECTORY_KEYS if q in new}
+                ups.append(dict(how=how, params=new))
+            case["updates"] = ups
+            yield case
 
 # ------------------------------------------------------------------------------------------------
 # reproducers of the two defect classes excluded by construction (not judged in the search; usable as
@@ -750,8 +897,8 @@ def shards(tier: str, seed: int):
     kind_sets = [("logistic",), ("linear",), ("shared_speed_logistic",), ("logistic", "joint"),
                  ("linear", "shared_speed_logistic"), ("logistic", "linear", "shared_speed_logistic", "joint"),
                  ("joint", "shared_speed_logistic"), ("logistic", "linear")]
-    n_ex = 400 if tier == "quick" else 10000
-    specs = [(MOD, "shard_sampled", dict(seed=seed, n_examples=n_ex, kinds=kind_sets[s % len(kind_sets)], shard=s)) for s in range(16)]
+    n_ex, n_up = (360, 60) if tier == "quick" else (9000, 1500)
+    specs = [(MOD, "shard_sampled", dict(seed=seed, n_examples=n_ex, kinds=kind_sets[s % len(kind_sets)], shard=s, n_updates=n_up)) for s in range(16)]
     for kind in GRID_SETTINGS:
         specs.append((MOD, "shard_grid", dict(kind=kind)))
     return specs
@@ -760,5 +907,8 @@ def shards(tier: str, seed: int):
 def replay(sub_check: str, inp):
     env.import_leaspy()
     col = Collector(PROP, "replay")
+    if "updates" in inp:
+        judge_updates(col, inp, sub="grid-updates" if sub_check.startswith("grid-updates") else "updates")
+        return col.failures
     judge(col, inp, allow_excluded=(sub_check == "known"), sub=sub_check if sub_check in ("grid", "known") else "estimate")
     return col.failures
